@@ -216,29 +216,17 @@ theorem backup_safe (o : BackupOpts) (src : List SrcEntry) : Safe (fun _ => True
     refine Safe.bind' (flushGroup_safe H w) (fun w => ?_)
     refine Safe.bind' (finishHunk_safe w) (fun w => ?_)
     exact Safe.bind' (performUnit_safe _) (fun _ => .ret trivial)
-  have hmain : ∀ {α : Type} (pre : Prog α), Safe (fun _ => True) pre →
-      Safe (fun _ => True) (pre.bind fun _ => lastBandId.bind fun basisBand =>
-      bandCreate.bind fun band => listBlocks.bind fun blocks =>
-        match basisBand with
-          | some b => (listEntries b [slash] (fun _ => false)).bind fun basis =>
-            (backupLoop H o { band := band, exists_ := blocks } (mergeTrees basis src)).bind fun w =>
-              (flushGroup H w).bind fun w => (finishHunk w).bind fun w =>
-                (bandClose w.band w.hunksWritten).bind fun _ => Prog.ret w.stats
-          | none => (Prog.ret []).bind fun basis =>
-            (backupLoop H o { band := band, exists_ := blocks } (mergeTrees basis src)).bind fun w =>
-              (flushGroup H w).bind fun w => (finishHunk w).bind fun w =>
-                (bandClose w.band w.hunksWritten).bind fun _ => Prog.ret w.stats) := by
-    intro α pre hpre
-    refine Safe.bind' hpre (fun _ => ?_)
-    refine Safe.bind' lastBandId_safe (fun basisBand => ?_)
-    refine Safe.bind' bandCreate_safe (fun band => ?_)
-    refine Safe.bind' listBlocks_safe (fun blocks => ?_)
-    cases basisBand with
-    | none => exact htail _ _ _ AllUsable.nil
-    | some b => exact Safe.bind (listEntries_safe b _ _) (fun basis hb => htail _ _ _ hb)
   split
-  · exact hmain _ (.fail _)
-  · exact hmain (Prog.ret PUnit.unit) (.ret trivial)
+  · exact Safe.bind (Q1 := fun _ => False) (.fail _) (fun _ h => h.elim)
+  refine Safe.bind' lastBandId_safe (fun basisBand => ?_)
+  refine Safe.bind' bandCreate_safe (fun band => ?_)
+  refine Safe.bind' gcLockListed_safe (fun locked2 => ?_)
+  split
+  · exact Safe.bind (Q1 := fun _ => False) (.fail _) (fun _ h => h.elim)
+  refine Safe.bind' listBlocks_safe (fun blocks => ?_)
+  cases basisBand with
+  | none => exact htail _ _ _ AllUsable.nil
+  | some b => exact Safe.bind (listEntries_safe b _ _) (fun basis hb => htail _ _ _ hb)
 
 end
 end Conserve.NP
